@@ -62,7 +62,8 @@ def run(rep):
     recs = res.json
     mprun.validate_model(progs, recs)
     if tier == 'thorough':
-        opts = [dict(o, ops='count', code=True) for o in rp.OPTION_SETS + [rp.LISTS_OPTION]]
+        opts = [dict(o, ops='count', code=True) for o in (rp.OPTION_SETS[0], rp.OPTION_SETS[1], rp.OPTION_SETS[3], dict(rp.OPTION_SETS[2], every=4),
+                                                          dict(rp.OPTION_SETS[4], every=4), rp.LISTS_OPTION)]
     else:   # quick: run one option set, convert + scan the generated code of one more
         opts = [dict(rp.OPTION_SETS[0], ops='count', code=True), dict(rp.LISTS_OPTION, ops='count', code=True)] + [
             dict(o, ops='count', code=True, norun=True) for o in rp.OPTION_SETS[2:3]]
